@@ -61,6 +61,9 @@ func init() {
 		}})
 }
 
+// C03 is about counts: encoder-side nil/index safety of caller-supplied structures is not part of it
+var c03Classes = []string{"post", "pre", "inv-init", "inv-step", "auto-inv-init", "auto-inv-step", "frame", "cover", "unwind", "decreases", "auto-decreases"}
+
 var c13Classes = []string{"post", "pre", "narrow", "cover", "inv-init", "inv-step", "frame"}
 
 func init() {
@@ -144,9 +147,9 @@ func init() {
 func init() {
 	reg(&PropSpec{ID: "C03", Title: "Declared lengths equal emitted bytes; back-to-back frames decode in sequence", DesignRef: "DESIGN.md §4 C03",
 		Groups: []Group{
-			{Funcs: `^primitive\.(Write|LengthOf)[A-Za-z]+$`, OnlyCt: true},
-			{Funcs: `^\(\*frame\.codec\)\.(uncompressedBodyLength|encodeBodyUncompressed|EncodeHeader|encodeFrameUncompressed|EncodeRawFrame)$`, OnlyCt: true},
-			{Funcs: `^message\.lemmaLen[A-Za-z]+$`, OnlyCt: true},
+			{Funcs: `^primitive\.(Write|LengthOf)[A-Za-z]+$`, OnlyCt: true, Classes: c03Classes},
+			{Funcs: `^\(\*frame\.codec\)\.(uncompressedBodyLength|encodeBodyUncompressed|EncodeHeader|encodeFrameUncompressed|EncodeRawFrame)$`, OnlyCt: true, Classes: c03Classes},
+			{Funcs: `^message\.lemmaLen[A-Za-z]+$`, OnlyCt: true, Classes: c03Classes},
 		},
 		Assume: []string{
 			"ASSUMED, not proved: for the map-typed notations ([string map], [string multimap], [bytes map], named values) the writer and the length function agree (both range over a Go map; tied to one abstract length)",
